@@ -123,7 +123,8 @@ Walk ==
        /\ Check(E.covbad = 0, "coverage-order")
        /\ Check(E.cntbad = 0, "count-vs-coverage")
        /\ Check(\A n \in 1..Len(E.covs) : CovOK(E.covs[n]), "coverage-format")
-       /\ Check(\A n \in 1..Len(E.cdefs) : CDefOK(E.cdefs[n]), "classdef-format")
+       \* values with explicit class-0 entries have no canonical span: either format is accepted
+       /\ Check(plan.zeros \/ \A n \in 1..Len(E.cdefs) : CDefOK(E.cdefs[n]), "classdef-format")
        /\ plan.kind \in {"plan", "shape", "lists"} =>
             /\ Check(plan.S >= 0 => E.sl[2] - E.sl[1] = plan.S, "script-list-size")
             /\ Check(plan.F >= 0 => E.fl[2] - E.fl[1] = plan.F, "feature-list-size")
